@@ -51,13 +51,13 @@ def stripCi : Cs → Cs → Option Cs
 
 /-- `\^?` -/
 def dropCaret : Cs → Cs
-  | '^' :: t => t
-  | s => s
+  | c :: t => if c == '^' then t else c :: t
+  | [] => []
 
 /-- `\*?` -/
 def dropStar : Cs → Cs
-  | '*' :: t => t
-  | s => s
+  | c :: t => if c == '*' then t else c :: t
+  | [] => []
 
 /-- `\s*\*?\s*` -/
 def skipMult (s : Cs) : Cs := dropWs (dropStar (dropWs s))
@@ -115,14 +115,16 @@ def scanMore (w : Cs) : Nat → Cs → Cs
 /-- the coefficient pattern of a field with variable `w` -/
 def scanCoefNamed (w s : Cs) : Option Cs :=
   match s with
-  | '(' :: t =>
-    match scanTerm w (dropWs t) with
-    | some r =>
-      match dropWs (scanMore w r.length r) with
-      | ')' :: r' => some r'
-      | _ => none
-    | none => none
-  | _ => scanTerm w s
+  | c :: t =>
+    if c == '(' then
+      match scanTerm w (dropWs t) with
+      | some r =>
+        match dropWs (scanMore w r.length r) with
+        | c' :: r' => if c' == ')' then some r' else none
+        | [] => none
+      | none => none
+    else scanTerm w s
+  | [] => scanTerm w s
 
 /-- `RegexElement(true)` at `s`; `ov` = the field's own variable (`none`: prime field) -/
 def scanCoef (ov : Option Cs) (s : Cs) : Option Cs :=
@@ -138,44 +140,50 @@ def scanCoef (ov : Option Cs) (s : Cs) : Option Cs :=
   `^` (possible at offset 0 only) fails at group 1, so the sign is consumed; without a sign only
   offset 0 can match (`\s*` gives everything back, `^`, `\s*` again). -/
 
-/-- the prioritised match at `s`; `first` = `s` is the whole input -/
+/-- `W(?:\^?([0-9]+))?` at `r3`: groups 1, 2 and the position after the match -/
+def binVar (w r3 : Cs) : Option (String × String × Cs) :=
+  match strip w r3 with
+  | none => none
+  | some r4 =>
+    match dropCaret r4 with
+    | c :: t =>
+      if c.isDigit then
+        some (consumed r3 (dropDigits (c :: t)), String.ofList (digits (c :: t)), dropDigits (c :: t))
+      else some (consumed r3 r4, "", r4)
+    | [] => some (consumed r3 r4, "", r4)
+
+/-- group 1 (`(?:0|1)` first) -/
+def binBody (w r3 : Cs) : Option (String × String × Cs) :=
+  match r3 with
+  | c :: t =>
+    if c == '0' then some ("0", "", t)
+    else if c == '1' then some ("1", "", t)
+    else binVar w r3
+  | [] => binVar w r3
+
+/-- `\s*(?:^|\+|-)`: the position after the sign; `first` = `s` is the whole input -/
+def binSign (first : Bool) (s : Cs) : Option Cs :=
+  match dropWs s with
+  | c :: t => if isSign c then some t else if first then some (c :: t) else none
+  | [] => if first then some [] else none
+
+/-- the prioritised match at `s` -/
 def tokBin (w : Cs) (first : Bool) (s : Cs) : Option (Array String × Cs) :=
-  let r1 := dropWs s
-  let afterSign : Option Cs :=
-    match r1 with
-    | c :: t => if isSign c then some t else if first then some r1 else none
-    | [] => if first then some r1 else none
-  match afterSign with
+  match binSign first s with
   | none => none
   | some r2 =>
-    let r3 := dropWs r2
-    let body : Option (String × String × Cs) :=
-      match r3 with
-      | '0' :: t => some ("0", "", t)
-      | '1' :: t => some ("1", "", t)
-      | _ =>
-        match strip w r3 with
-        | none => none
-        | some r4 =>
-          match dropCaret r4 with
-          | c :: t =>
-            if c.isDigit then
-              some (consumed r3 (dropDigits (c :: t)), String.ofList (digits (c :: t)), dropDigits (c :: t))
-            else some (consumed r3 r4, "", r4)
-          | [] => some (consumed r3 r4, "", r4)
-    match body with
+    match binBody w (dropWs r2) with
     | none => none
-    | some (g1, g2, r5) =>
-      let r6 := dropWs r5
-      some (#[consumed s r6, g1, g2], r6)
+    | some (g1, g2, r5) => some (#[consumed s (dropWs r5), g1, g2], dropWs r5)
 
 def loopBin (w : Cs) : Nat → Bool → Cs → Option (List (Array String))
-  | _, _, [] => some []
-  | 0, _, _ :: _ => none
+  | 0, _, s => if s.isEmpty then some [] else none
   | f + 1, first, s =>
-    match tokBin w first s with
-    | none => none
-    | some (g, r) => if r.length < s.length then (loopBin w f false r).map (g :: ·) else none
+    if s.isEmpty then some []
+    else
+      match tokBin w first s with
+      | none => none
+      | some (g, r) => if r.length < s.length then (loopBin w f false r).map (g :: ·) else none
 
 /-- all matches, or `none` when they do not cover the input -/
 def matchesBin (w : String) (s : String) : Option (List (Array String)) :=
@@ -189,30 +197,33 @@ def matchesBin (w : String) (s : String) : Option (List (Array String)) :=
   first match (then a character is skipped, or the input is empty); an empty match after a
   previous match is dropped and a character is skipped, unless the input is exhausted. -/
 
-def tokU (ov : Option Cs) (v : Cs) (s : Cs) : Array String × Cs :=
-  let r1 := dropWs s
-  let (sign, r2) : String × Cs :=
-    match r1 with
-    | c :: t => if isSign c then (String.singleton c, t) else ("", r1)
-    | [] => ("", r1)
-  let r3 := dropWs r2
-  let r4 := (scanCoef ov r3).getD r3
-  let r5 := skipMult r4
+/-- `(?P<sign>\\+|-)?` -/
+def takeSign (s : Cs) : String × Cs :=
+  match s with
+  | c :: t => if isSign c then (String.singleton c, t) else ("", s)
+  | [] => ("", [])
+
+/-- `(?:(?P<var>(?i:V))\\^?(?P<deg>[0-9]*))?\\s*` at `r5`: groups var, deg and the position after it -/
+def varDeg (v r5 : Cs) : String × String × Cs :=
   match stripCi v r5 with
   | some r6 =>
-    let r7 := dropCaret r6
-    let r9 := dropWs (dropDigits r7)
-    (#[consumed s r9, sign, consumed r3 r4, consumed r5 r6, String.ofList (digits r7)], r9)
-  | none =>
-    let r9 := dropWs r5
-    (#[consumed s r9, sign, consumed r3 r4, "", ""], r9)
+    (consumed r5 r6, String.ofList (digits (dropCaret r6)), dropWs (dropDigits (dropCaret r6)))
+  | none => ("", "", dropWs r5)
+
+def tokU (ov : Option Cs) (v : Cs) (s : Cs) : Array String × Cs :=
+  let sg := takeSign (dropWs s)
+  let r3 := dropWs sg.2
+  let r4 := (scanCoef ov r3).getD r3
+  let vd := varDeg v (skipMult r4)
+  (#[consumed s vd.2.2, sg.1, consumed r3 r4, vd.1, vd.2.1], vd.2.2)
 
 def loopU (ov : Option Cs) (v : Cs) : Nat → Cs → Option (List (Array String))
-  | _, [] => some []
-  | 0, _ :: _ => none
+  | 0, s => if s.isEmpty then some [] else none
   | f + 1, s =>
-    let (g, r) := tokU ov v s
-    if r.length < s.length then (loopU ov v f r).map (g :: ·) else none
+    if s.isEmpty then some []
+    else if (tokU ov v s).2.length < s.length then
+      (loopU ov v f (tokU ov v s).2).map ((tokU ov v s).1 :: ·)
+    else none
 
 def matchesU (ov : Option String) (v : String) (s : String) : Option (List (Array String)) :=
   if s.toList.isEmpty then some [#["", "", "", "", ""]]
@@ -272,12 +283,13 @@ def tokB (ov : Option Cs) (x y : Cs) (first : Bool) (s : Cs) : Option (Array Str
   else withSign
 
 def loopB (ov : Option Cs) (x y : Cs) : Nat → Cs → Option (List (Array String))
-  | _, [] => some []
-  | 0, _ :: _ => none
+  | 0, s => if s.isEmpty then some [] else none
   | f + 1, s =>
-    match tokB ov x y false s with
-    | none => none
-    | some (g, r) => if r.length < s.length then (loopB ov x y f r).map (g :: ·) else none
+    if s.isEmpty then some []
+    else
+      match tokB ov x y false s with
+      | none => none
+      | some (g, r) => if r.length < s.length then (loopB ov x y f r).map (g :: ·) else none
 
 def matchesB (ov : Option String) (x y : String) (s : String) : Option (List (Array String)) :=
   let cs := s.toList
